@@ -87,7 +87,18 @@ def inline_locals(fn, node, depth=4):
         node = _Subst(table).visit(node)
         if ast.dump(node) == before:
             break
-    return ast.fix_missing_locations(node)
+    node = ast.fix_missing_locations(node)
+    for n in ast.walk(node):
+        for c in ast.iter_child_nodes(n):
+            c._parent = n
+        if getattr(fn, "_module", None) is not None:
+            n._module = fn._module
+    return node
+
+
+def temporaries_free(fn):
+    """fn with its pure temporaries read through (a structural copy with parent links), or fn itself when it has none: for shape recognisers"""
+    return inline_locals(fn, fn) if pure_locals(fn) else fn
 
 
 def inline_stable_locals(fn, pure_calls=("max", "min", "isinf", "len"), keep=None):
